@@ -395,6 +395,22 @@ def run_units(sel, tier, prop, keep=False, jobs=None):
             ur["replay_result"] = rep["native_replay"]["result"]
         if not keep:
             shutil.rmtree(d, ignore_errors=True)
+    for u in [x for x in sel if x.get("backend") == "pin"]:
+        # trusted (unverifiable) code: inline asm / SIMD intrinsics. Nothing is proved about it; its text is pinned so that a
+        # change to it is reported as UNDECIDED (the assumed contract must be re-validated by hand) - never as a violation.
+        pins = json.load(open(os.path.join(VERIF, "trusted_spans.json")))
+        ur = {"status": "PASS", "reason": "", "harnesses": {}}
+        for f in u.get("functions", []):
+            path = os.path.join(inject.REPO, f[0])
+            span = inject.fn_span(path, f[1], f[2] if len(f) > 2 else None) if os.path.exists(path) else None
+            key = f[0] + "::" + f[1]
+            if span is None:
+                ur = {"status": "UNDECIDED", "reason": "lost anchor: trusted fn %s" % key, "harnesses": {}}
+                break
+            if inject.sha256(span) != pins.get(key):
+                ur = {"status": "UNDECIDED", "reason": "trusted (unverifiable: inline asm / SIMD) code changed: %s - its assumed contract (%s) must be re-validated by hand" % (key, u.get("contract", "")[:120]), "harnesses": {}}
+                break
+        results[u["id"]] = ur
     for u in verus_units:
         try:
             d = new_scratch("v" + re.sub(r"\W", "", u["id"]))
@@ -451,6 +467,8 @@ def report(prop, tier, sel, results, inj_log, wall, write_evidence=True):
             if u["kind"] == "complete":
                 obligations += n_checks
                 discharged += n_ok if n_ok <= n_checks else n_checks
+            elif u["kind"] == "assumed":
+                pass
             else:
                 bounded.append({"unit": u["id"], "bound": u.get("bound", ""), "checks": n_checks})
             for c in ur["harnesses"].values():
